@@ -33,6 +33,7 @@ struct HState {
   bool start_failed_once = false;
   bool merged_err = false;
   int busy = 0;  // ops in flight on this handle (multi-thread plans)
+  char tok_life = 0, tok_join = 0;  // addresses used for the happens-before edges a multi-thread plan implies (tsan lane)
 };
 
 struct UserFd { int fd; int ofd_id; int peer_fd; };
